@@ -31,6 +31,7 @@ func checkC12(w *World, r *Report) {
 	r.Explanation += " Round 9: (R12.10) the macro table has four writers; (R12.11) qualified calls keep their qualifier."
 	r.Explanation += " Round 10: (R12.12) import binds its alias with SetVariable."
 	r.Explanation += " Round 12: (R12.13) a macro definition registers itself whatever the table holds."
+	r.Explanation += " Round 13: (R12.14) nodes own the tables they are built with."
 	r.RuleText = "obligation = one render site of a macro body / one binding / one caller; non-trivial = all"
 	r.Trusted = []string{"field-of-origin classification (MacroNode.params/defaults/body)"}
 
